@@ -60,8 +60,8 @@ pub fn build(c: &Case) -> Built {
         bits.push(b);
     }
     let nch = n_colour + ecs.len();
-    let mut ints = vec![];
-    let mut truth = vec![];
+    let mut ints: Vec<Vec<i32>> = vec![];
+    let mut truth: Vec<Vec<f64>> = vec![];
     let mut chans = vec![];
     for ci in 0..nch {
         let b = bits[ci];
@@ -103,11 +103,45 @@ pub fn build(c: &Case) -> Built {
         ints.push(ch.data.clone());
         chans.push(ch);
     }
-    let mut spec = ModularFrameSpec::new(FrameHeader::modular_lossless(&img), chans);
+    let mut fh0 = FrameHeader::modular_lossless(&img);
+    // range 3: a second, cropped layer replaces part of the first one, so the output is a composited canvas (the clip of
+    // the layer to the canvas works in stored coordinates whatever the orientation)
+    let layered = c.range == 3 && (c.w > 1 || c.h > 1);
+    if layered {
+        fh0.is_last = false;
+    }
+    let mut spec = ModularFrameSpec::new(fh0, chans);
     // (bit patterns of negative floats are huge integers: no prediction, so that residuals stay in range)
     spec.tree = Node::leaf(if float { 0 } else { 5 });
     let f = write_modular_frame(&img, &spec);
-    let bytes = write_codestream(&img, &Sel::default(), &[f.bytes]);
+    let mut frames = vec![f.bytes];
+    if layered {
+        let (x0, y0) = (if c.w > 1 { 1 } else { 0 }, if c.h > 1 && c.w == 1 { 1 } else { 0 });
+        let (lw, lh) = (c.w - x0, c.h - y0);
+        let mut fh1 = FrameHeader::modular_lossless(&img);
+        fh1.have_crop = true;
+        fh1.x0 = x0 as i32;
+        fh1.y0 = y0 as i32;
+        fh1.width = lw as u32;
+        fh1.height = lh as u32;
+        let mut chans1 = vec![];
+        for ci in 0..nch {
+            let maxv = (1i64 << bits[ci]) - 1;
+            let ch = Channel::from_fn(lw, lh, |x, y| (((ci as i64 * 11 + (y * lw + x) as i64 * 3 + 2) * 7919) % (maxv + 1)) as i32);
+            for y in 0..lh {
+                for x in 0..lw {
+                    let v = ch.data[y * lw + x];
+                    ints[ci][(y0 + y) * c.w + x0 + x] = v;
+                    truth[ci][(y0 + y) * c.w + x0 + x] = v as f64 / maxv as f64;
+                }
+            }
+            chans1.push(ch);
+        }
+        let mut spec1 = ModularFrameSpec::new(fh1, chans1);
+        spec1.tree = Node::leaf(5);
+        frames.push(write_modular_frame(&img, &spec1).bytes);
+    }
+    let bytes = write_codestream(&img, &Sel::default(), &frames);
     let alpha_idx = ecs.iter().position(|&t| t == EC_ALPHA).map(|i| n_colour + i);
     Built { bytes, truth, ints, n_colour, alpha_idx, bits }
 }
@@ -344,6 +378,12 @@ pub fn cases(quick: bool) -> Vec<Case> {
                         out.push(Case { w, h, layout, depth, orientation: o, range });
                     }
                 }
+                // two layers (the second cropped) under every orientation
+                for o in 1..=8u32 {
+                    if depth == 8 || layout == 3 {
+                        out.push(Case { w, h, layout, depth, orientation: o, range: 3 });
+                    }
+                }
             }
         }
     }
@@ -411,7 +451,7 @@ pub fn main(args: &crate::Args) {
             Err(p) => rep.violation("cmyk-panic", &p, &json!({"file": "cmyk_layers.jxl"})),
         }
     }
-    rep.rule = "FULL PRODUCT of image sizes (w 1..4 x h 1..3, 5x2; thorough adds 2x5, 6x4, 9x2) x 6 channel layouts (Gray, GrayA, RGB, RGBA, RGB+depth+alpha, RGB+2 alphas) x sample depths {5, 8, 12, 16, f32, f16; the float ones with negative samples} x orientations 1..8 x EVERY crop rectangle in oriented coordinates (plus no region) x outputs {image_all_channels, image_planar, stream, stream_no_alpha} x sample types {f32, u16, u8} x write-buffer sizes {1, 3, exact, oversized}; every image has a distinct value in every sample; oracle: EXIF coordinate maps, v/(2^bits-1), clamp(floor(f*max+0.5)), exact integers when depths match; plus channel order C,M,Y,K,A on cmyk_layers.jxl. Each case = one image; sample comparisons are counted separately.".into();
+    rep.rule = "FULL PRODUCT of image sizes (w 1..4 x h 1..3, 5x2; thorough adds 2x5, 6x4, 9x2) x 6 channel layouts (Gray, GrayA, RGB, RGBA, RGB+depth+alpha, RGB+2 alphas) x sample depths {5, 8, 12, 16, f32, f16; the float ones with negative samples} x orientations 1..8 x EVERY crop rectangle in oriented coordinates (plus no region) x outputs {image_all_channels, image_planar, stream, stream_no_alpha} x sample types {f32, u16, u8} x write-buffer sizes {1, 3, exact, oversized}; every image has a distinct value in every sample; oracle: EXIF coordinate maps, v/(2^bits-1), clamp(floor(f*max+0.5)), exact integers when depths match; plus two-layer images (a cropped Replace layer over a full one) under every orientation, and channel order C,M,Y,K,A on cmyk_layers.jxl. Each case = one image; sample comparisons are counted separately.".into();
     rep.extra.insert("sample_comparisons".into(), json!(sample_checks));
     rep.sample(json!({"case": format!("{:?}", cs[cs.len() / 2]), "stream_hex": hex(&build(&cs[cs.len() / 2]).bytes)}));
     rep.sample(json!({"case": format!("{:?}", cs[cs.len() - 1])}));
